@@ -237,7 +237,8 @@ READ_KEYS = TOP + SECTION_KEYS + ["S", "T", "L"] + LIST_KEYS + DISPATCH_KEYS
 
 SCALARS = [0, 1, 2, -1, True, False, None, "", "a", "b"]
 HASHABLE = [0, 1, 2, True, False, None, "", "a", "b", "x", "y"]
-CONTAINERS = [[], [1], [0, "a"], {}, {"X": 1}]
+CONTAINERS = [[], [1], [0, "a"], [[1], 2]]
+DICT_VALUES = [{}, {"X": 1}]  # only where no template can reference them mid-string (str(dict) has braces)
 VALUES = SCALARS + CONTAINERS
 TEMPLATED = ["{A}", "{S.X}-{B}", "{B}", "{C}", "p{T.X}q", "{S.Y}", "{L.0}", "{A}{B}"]
 DISPATCH_VALUES = ["x", "y", "z", 0, 1, True, None, "a"]
@@ -253,6 +254,15 @@ def random_value(rng, templated=0.15, containers=True):
             c[0] = rng.choice(TEMPLATED[:5])
         return c
     return rng.choice(SCALARS)
+
+
+def closed(options):
+    """True when every templated reference in the dictionary resolves (no dangling, no cycle)."""
+    try:
+        substitute(options, options)
+        return True
+    except (MissingKey, RecursionError):
+        return False
 
 
 def _acyclic(options):
@@ -283,7 +293,7 @@ def substitute_all_tolerant(options):
     walk(options, 0)
 
 
-def random_options(rng, p_present=0.6, templated=0.15, switches=False, scalar_sections=0.0):
+def random_options(rng, p_present=0.6, templated=0.15, switches=False, scalar_sections=0.0, closed_only=False):
     """A dictionary over the universe; acyclic template references only."""
     for _ in range(50):
         o = {}
@@ -310,12 +320,12 @@ def random_options(rng, p_present=0.6, templated=0.15, switches=False, scalar_se
             o[rng.choice(NOISE)] = rng.choice(SCALARS)
         if switches:
             pass
-        if _acyclic(o):
+        if _acyclic(o) and (not closed_only or closed(o)):
             return o
     return {}
 
 
-def perturb(rng, options, keys=None, kinds=("change", "delete", "add")):
+def perturb(rng, options, keys=None, kinds=("change", "delete", "add"), closed_only=False):
     """Single-key perturbation of `options`; returns (new_options, key, kind)."""
     keys = list(keys or READ_KEYS)
     for _ in range(20):
@@ -349,7 +359,7 @@ def perturb(rng, options, keys=None, kinds=("change", "delete", "add")):
                 if parent and not isinstance(lookup(parent, options), (dict, type(ABSENT))):
                     continue
                 new = set_path(options, k, v)
-        if new != options and _acyclic(new):
+        if new != options and _acyclic(new) and (not closed_only or closed(new)):
             return new, k, kind
     return copy.deepcopy(options), None, None
 
@@ -364,8 +374,10 @@ def _different(rng, cur, dispatch=False):
 
 
 def with_noise(rng, options):
+    """Add a never-mentioned key that is not there yet (a fresh name if both noise keys are taken)."""
     out = copy.deepcopy(options)
-    out[rng.choice(NOISE)] = rng.choice(SCALARS + [[1], {"Q": 1}])
+    free = [k for k in NOISE if k not in out] or [next(f"N{i}" for i in range(3, 99) if f"N{i}" not in out)]
+    out[rng.choice(free)] = rng.choice(SCALARS + [[1], {"Q": 1}])
     return out
 
 
@@ -375,26 +387,26 @@ def permuted(rng, options):
     return {k: copy.deepcopy(v) for k, v in items}
 
 
-def history(rng, length, keys=None, p_present=0.6, templated=0.15):
+def history(rng, length, keys=None, p_present=0.6, templated=0.15, permute=True, closed_only=False):
     """Sequence of colliding dictionaries: perturbations, revisits, noise, permutations."""
-    base = random_options(rng, p_present, templated)
+    base = random_options(rng, p_present, templated, closed_only=closed_only)
     seq = [base]
     while len(seq) < length:
         r = rng.random()
         src = rng.choice(seq)
         if r < 0.5:
-            new, _, _ = perturb(rng, src, keys)
+            new, _, _ = perturb(rng, src, keys, closed_only=closed_only)
         elif r < 0.62:
-            new, _, _ = perturb(rng, src, keys)
-            new, _, _ = perturb(rng, new, keys)
+            new, _, _ = perturb(rng, src, keys, closed_only=closed_only)
+            new, _, _ = perturb(rng, new, keys, closed_only=closed_only)
         elif r < 0.74:
             new = copy.deepcopy(src)
         elif r < 0.84:
             new = with_noise(rng, src)
-        elif r < 0.92:
+        elif r < 0.92 and permute:
             new = permuted(rng, src)
         else:
-            new = random_options(rng, p_present, templated)
+            new = random_options(rng, p_present, templated, closed_only=closed_only)
         seq.append(new)
     return seq
 
